@@ -533,8 +533,8 @@ def assemble(unit, mode="normal", mutant=None):
 
 
 # ------------------------------------------------------------------ running verus
-def run_verus(path, rlimit=None, seed=None, multiple_errors=None, timeout=600):
-    cmd = [VERUS, path, "--output-json", "--time", "--error-format=json", "--no-report-long-running"]
+def run_verus(path, rlimit=None, seed=None, multiple_errors=None, timeout=600, extra=None):
+    cmd = [VERUS, path, "--output-json", "--time", "--error-format=json", "--no-report-long-running"] + (extra or [])
     if rlimit:
         cmd += ["--rlimit", str(rlimit)]
     if seed is not None:
@@ -681,12 +681,35 @@ def verify_unit(unit_path, mode="normal", mutant=None, tier="quick", keep=True, 
         f.write("\n".join(gen_lines) + "\n")
     res = run_verus(gpath, rlimit=(rlimit or (3 if mode == "canary" else None)), seed=seed, multiple_errors=(12 if mode == "canary" else 6))
     failures, tool, rl = classify(res, gen_lines, linemap)
+    isolated = []
     if rl and mode == "normal" and mutant is None and not failures and not tool:
         # retry once with 4x rlimit and another seed (DESIGN §2.4)
         res2 = run_verus(gpath, rlimit=40, seed=7)
         f2, t2, r2 = classify(res2, gen_lines, linemap)
         if not r2:
             res, failures, tool, rl = res2, f2, t2, r2
+        else:
+            # last resort: each function that ran out of resources is re-verified ALONE in a fresh solver (its obligation does not
+            # depend on the other functions' bodies, only on their contracts, so an isolated success is the same proof)
+            slow = sorted({b["function"].split("::", 1)[1] for b in fn_breakdown(res2["json"]) + fn_breakdown(res["json"]) if not b.get("success", True) and "::" in b.get("function", "")})
+            ok_all, extra = bool(slow), 0
+            for fnm in slow:
+                r3 = run_verus(gpath, rlimit=40, seed=3, extra=["--verify-function", fnm, "--verify-root"])
+                f3, t3, rl3 = classify(r3, gen_lines, linemap)
+                v3 = ((r3["json"] or {}).get("verification-results", {}) or {}).get("verified", 0)
+                if f3 or t3 or rl3 or v3 == 0:
+                    ok_all = False
+                    if f3 and not t3:
+                        failures = f3   # a real failed clause, reported as such
+                    break
+                extra += v3
+            if ok_all:
+                base = res2 if not f2 and not t2 else res
+                vr0 = (base["json"] or {}).get("verification-results", {})
+                vr0["verified"] = vr0.get("verified", 0) + extra
+                vr0["errors"] = 0
+                res, failures, tool, rl = base, [], [], []
+                isolated = slow
     assumptions = scan_assumptions(gen_lines, linemap)
     stub_keys = {t.key for t in unit["takes"] if t.stub}
     leaked = [a for a in assumptions if a["in_take"] is not None and a["in_take"] not in stub_keys]
@@ -697,7 +720,7 @@ def verify_unit(unit_path, mode="normal", mutant=None, tier="quick", keep=True, 
     return {"unit": unit, "gen_path": gpath, "gen_lines": gen_lines, "linemap": linemap, "res": res,
             "failures": failures, "tool_errors": tool, "rlimit": rl, "assumptions": assumptions,
             "leaked_assumptions": leaked, "verified": vr.get("verified", 0), "errors": vr.get("errors", 0),
-            "breakdown": fn_breakdown(res["json"]), "mode": mode}
+            "breakdown": fn_breakdown(res["json"]), "mode": mode, "isolated_retry": isolated}
 
 
 def check_canaries(unit_path):
